@@ -120,6 +120,8 @@ func Clients() (*world.World, *world.Chain) {
 	Proposal(c, w, "tss-cp", &tsstypes.ClientState{TssAddress: c.Accounts["tss"].Acc.String(), Pubkey: []byte{1}, PartPubkeys: [][]byte{{2}}, Threshold: 1}, &tsstypes.ConsensusState{})
 	Update(c, w, "tss-cp", &tsstypes.Header{TssAddress: c.Accounts["tss"].Acc.String(), Pubkey: []byte{3}, PartPubkeys: [][]byte{{4}}, Threshold: 2}, "tss")
 	Update(c, w, "tss-cp", &tsstypes.Header{TssAddress: c.Accounts["tss"].Acc.String(), Pubkey: []byte{3}, PartPubkeys: [][]byte{{4}}, Threshold: 2}, "r1")
+	// a header from the TSS account that names no TSS account (must be refused: the client state would not be importable)
+	Update(c, w, "tss-cp", &tsstypes.Header{TssAddress: "", Pubkey: []byte{5}, PartPubkeys: [][]byte{{6}}, Threshold: 1}, "tss")
 	return w, c
 }
 
